@@ -43,7 +43,7 @@ EXTRA_THEOREMS = {
             ('Xdoc.C14.intervalStarts_decreasing', 'full'), ('Xdoc.C14.hackComments_fuel_free', 'full'),
             ('Xdoc.C14.lexGoF_eq', 'full'), ('Xdoc.C14.isBalanced_fuel_free', 'full'), ('Xdoc.C14.labelLines_length', 'full')],
 }
-EXTRA_THEOREMS['C02'] = [('Xdoc.C02.verdictOf_ok_iff', 'full'), ('Xdoc.C02.want_ok_iff_old_code_fails', 'witness')]
+EXTRA_THEOREMS['C02'] = [('Xdoc.C02.verdictOf_ok_iff', 'full'), ('Xdoc.C02.ignored_want_closes_window', 'full'), ('Xdoc.C02.want_ok_iff_old_code_fails', 'witness')]
 EXTRA_THEOREMS['C07'] = [('Xdoc.Google.dedentLines_margin', 'full'), ('Xdoc.Google.prepLines_margin', 'full'),
                          ('Xdoc.Google.prepLines_margin_old_padding_fails', 'witness'), ('Xdoc.Google.prepLines_margin_tab_witness', 'witness'),
                          ('Xdoc.Static.packageModpaths_nodup', 'full'), ('Xdoc.Static.walkSubs_nodup', 'full'),
